@@ -50,6 +50,35 @@ SITES = [
         '{ProbabilityVectorretval(v.size());doublesum=0.0;size_tcount=0;for(autoi=0;i<v.size();++i){if(v[i]<0.0)retval[i]=0.0;else{retval[i]=1.0;++count;sum+=v[i];}}if(checkEqualSmall(sum,1.0)){retval.array()*=v.array();}elseif(checkEqualSmall(sum,0.0)){retval.fill(1.0/v.size());}elseif(sum>1.0){if(std::isinf(sum)){retval.array()*=v.array()/v.maxCoeff();retval/=retval.sum();}elseretval.array()*=v.array()/sum;}else{constautodiff=(1.0-sum)/count;retval.array()*=(v.array()+diff);}returnretval;}': True}),
     ('voseConstructor', CPP, r'VoseAliasSampler::VoseAliasSampler\s*\(\s*const\s+ProbabilityVector\s*&\s*p\s*\)\s*:.*?\{', {
         '{constsize_tunassigned=prob_.size();constautoavg=1.0/prob_.size();autosmall=0,large=0;while(small<prob_.size()&&prob_[small]>=avg)++small;while(large<prob_.size()&&prob_[large]<avg)++large;autosmallCheckpoint=small;while(small<prob_.size()&&large<prob_.size()){prob_[large]=(prob_[large]+prob_[small])-avg;alias_[small]=large;if(prob_[large]<avg){small=large;++large;while(large<prob_.size()&&prob_[large]<avg)++large;}else{small=smallCheckpoint+1;while(small<prob_.size()&&(prob_[small]>=avg||alias_[small]!=unassigned))++small;smallCheckpoint=small;}}for(size_tx=0;x<unassigned;++x){if(alias_[x]==unassigned){prob_[x]=1.0;alias_[x]=x;}}prob_*=prob_.size();}': None}),
+    # round 2: the model objects' sampling functions and the gamma-based samplers (single modelled form each)
+    ('mdpSampleSR', 'src/MDP/Model.cpp', r'Model::sampleSR\s*\(\s*const\s+size_t\s+s\s*,\s*const\s+size_t\s+a\s*\)\s*const\s*\{', {
+        '{size_ts1=sampleProbability(S,transitions_[a].row(s),rand_);returnstd::make_tuple(s1,rewards_(s,a));}': None}),
+    ('mdpSparseSampleSR', 'src/MDP/SparseModel.cpp', r'SparseModel::sampleSR\s*\(\s*const\s+size_t\s+s\s*,\s*const\s+size_t\s+a\s*\)\s*const\s*\{', {
+        '{constsize_ts1=sampleProbability(S,transitions_[a].row(s),rand_);returnstd::make_tuple(s1,getExpectedReward(s,a,s1));}': None}),
+    ('pomdpSampleSOR', 'include/AIToolbox/POMDP/Model.hpp', r'Model<M>::sampleSOR\s*\(\s*const\s+size_t\s+s\s*,\s*const\s+size_t\s+a\s*\)\s*const\s*\{', {
+        '{constauto[s1,r]=this->sampleSR(s,a);constautoo=sampleProbability(O,observations_[a].row(s1),rand_);returnstd::make_tuple(s1,o,r);}': None}),
+    ('pomdpSampleOR', 'include/AIToolbox/POMDP/Model.hpp', r'Model<M>::sampleOR\s*\(\s*const\s+size_t\s+s\s*,\s*const\s+size_t\s+a\s*,\s*const\s+size_t\s+s1\s*\)\s*const\s*\{', {
+        '{constsize_to=sampleProbability(O,observations_[a].row(s1),rand_);constdoubler=this->getExpectedReward(s,a,s1);returnstd::make_tuple(o,r);}': None}),
+    ('pomdpSparseSampleSOR', 'include/AIToolbox/POMDP/SparseModel.hpp', r'SparseModel<M>::sampleSOR\s*\(\s*const\s+size_t\s+s\s*,\s*const\s+size_t\s+a\s*\)\s*const\s*\{', {
+        '{constauto[s1,r]=this->sampleSR(s,a);constautoo=sampleProbability(O,observations_[a].row(s1),rand_);returnstd::make_tuple(s1,o,r);}': None}),
+    ('pomdpSparseSampleOR', 'include/AIToolbox/POMDP/SparseModel.hpp', r'SparseModel<M>::sampleOR\s*\(\s*const\s+size_t\s+s\s*,\s*const\s+size_t\s+a\s*,\s*const\s+size_t\s+s1\s*\)\s*const\s*\{', {
+        '{constsize_to=sampleProbability(O,observations_[a].row(s1),rand_);constdoubler=this->getExpectedReward(s,a,s1);returnstd::make_tuple(o,r);}': None}),
+    ('coopSampleSR', 'src/Factored/MDP/CooperativeModel.cpp', r'double\s+CooperativeModel::sampleSR\s*\(\s*const\s+State\s*&\s*s\s*,\s*const\s+Action\s*&\s*a\s*,\s*State\s*\*\s*s1p\s*\)\s*const\s*\{', {
+        '{constauto&tProbs=transitions_.transitions;constauto&S=graph_.getS();State&s1=*s1p;for(size_ti=0;i<S.size();++i){constautoj=graph_.getId(i,s,a);s1[i]=sampleProbability(S[i],tProbs[i].row(j),rand_);}returnrewards_.getValue(S,graph_.getA(),s,a);}': None}),
+    ('coopSampleSRs', 'src/Factored/MDP/CooperativeModel.cpp', r'void\s+CooperativeModel::sampleSRs\s*\(\s*const\s+State\s*&\s*s\s*,\s*const\s+Action\s*&\s*a\s*,\s*State\s*\*\s*s1p\s*,\s*Rewards\s*\*\s*rp\s*\)\s*const\s*\{', {
+        '{assert(s1p);assert(rp);auto&s1=*s1p;auto&rews=*rp;constauto&tProbs=transitions_.transitions;constauto&S=graph_.getS();for(size_ti=0;i<S.size();++i){constautoj=graph_.getId(i,s,a);s1[i]=sampleProbability(S[i],tProbs[i].row(j),rand_);}for(size_ti=0;i<rewards_.bases.size();++i){constauto&e=rewards_.bases[i];constautofid=toIndexPartial(e.tag,S,s);constautoaid=toIndexPartial(e.actionTag,graph_.getA(),a);rews[i]=e.values(fid,aid);}}': None}),
+    ('ddnGetIds', 'src/Factored/Utils/BayesianNetwork.cpp', r'DDNGraph::getIds\s*\(\s*const\s+size_t\s+feature\s*,\s*const\s+State\s*&\s*s\s*,\s*const\s+Action\s*&\s*a\s*\)\s*const\s*\{', {
+        '{constautoactionId=toIndexPartial(parents_[feature].agents,A,a);constauto&features=parents_[feature].features[actionId];constautoparentId=toIndexPartial(features,S,s);return{parentId,actionId};}': None}),
+    ('ddnGetId', 'src/Factored/Utils/BayesianNetwork.cpp', r'DDNGraph::getId\s*\(\s*const\s+size_t\s+feature\s*,\s*size_t\s+parentId\s*,\s*size_t\s+actionId\s*\)\s*const\s*\{', {
+        '{returnstartIds_[feature][actionId]+parentId;}': None}),
+    ('ddnTransitionProbability', 'src/Factored/Utils/BayesianNetwork.cpp', r'DDN::getTransitionProbability\s*\(\s*const\s+Factors\s*&\s*s\s*,\s*const\s+Factors\s*&\s*a\s*,\s*const\s+Factors\s*&\s*s1\s*\)\s*const\s*\{', {
+        '{doubleretval=1.0;for(size_ti=0;i<graph.getS().size();++i){retval*=transitions[i](graph.getId(i,s,a),s1[i]);}returnretval;}': None}),
+    ('factoredMatrixGetValue', 'src/Factored/Utils/FactoredMatrix.cpp', r'FactoredMatrix2D::getValue\s*\(\s*const\s+Factors\s*&\s*space\s*,\s*const\s+Factors\s*&\s*actions\s*,\s*const\s+Factors\s*&\s*value\s*,\s*const\s+Factors\s*&\s*action\s*\)\s*const\s*\{', {
+        '{doubleretval=0.0;for(constauto&e:bases){constautofid=toIndexPartial(e.tag,space,value);constautoaid=toIndexPartial(e.actionTag,actions,action);retval+=e.values(fid,aid);}returnretval;}': None}),
+    ('dirichletSampler', 'include/AIToolbox/Utils/Probability.hpp', r'void\s+sampleDirichletDistribution\s*\(\s*const\s+TIn\s*&\s*params\s*,\s*G\s*&\s*generator\s*,\s*TOut\s*&&\s*out\s*\)\s*\{', {
+        '{assert(params.size()==out.size());doublesum=0.0;for(size_ti=0;i<static_cast<size_t>(params.size());++i){std::gamma_distribution<double>dist(params[i],1.0);out[i]=dist(generator);sum+=out[i];}out/=sum;}': None}),
+    ('betaSampler', 'include/AIToolbox/Utils/Probability.hpp', r'double\s+sampleBetaDistribution\s*\(\s*double\s+a\s*,\s*double\s+b\s*,\s*G\s*&\s*generator\s*\)\s*\{', {
+        '{std::gamma_distribution<double>dista(a,1.0);std::gamma_distribution<double>distb(b,1.0);constautoX=dista(generator);constautoY=distb(generator);returnX/(X+Y);}': None}),
 ]
 
 # the member initialisers of the Vose constructor belong to the modelled form as well
@@ -57,7 +86,10 @@ VOSE_INIT = 'prob_(p),alias_(prob_.size(),prob_.size()),sampleDistribution_(0,pr
 
 
 def gen_c08_variant():
-    srcs = {HPP: E.strip_comments(E.read(HPP)), CPP: E.strip_comments(E.read(CPP))}
+    srcs = {}
+    for _n, rel, _p, _f in SITES:
+        if rel not in srcs:
+            srcs[rel] = E.strip_comments(E.read(rel))
     rows, errs = [], []
     for name, rel, pat, forms in SITES:
         body, ln = _body(srcs[rel], pat, name)
@@ -76,6 +108,11 @@ def gen_c08_variant():
     m = re.search(r'static\s+std::uniform_real_distribution<double>\s+probabilityDistribution\s*\(\s*0\.0\s*,\s*1\.0\s*\)\s*;', srcs[HPP])
     if not m:
         errs.append('probabilityDistribution is no longer uniform_real_distribution<double>(0.0, 1.0)')
+    # DDNGraph::push: the running-sum construction of startIds_ (modelled by ddnStartIds)
+    bn = E.strip_comments(E.read('src/Factored/Utils/BayesianNetwork.cpp'))
+    mm = re.search(r'size_t\s+newStartId\s*=\s*0;.*?newStartIds\.back\(\)\s*=\s*newStartId;', bn, re.S)
+    if not mm or _norm(mm.group(0)) != 'size_tnewStartId=0;for(size_ti=0;i<newParents.features.size();++i){newStartIds[i]=newStartId;newStartId+=factorSpacePartial(newParents.features[i],S);}newStartIds.back()=newStartId;':
+        errs.append('DDNGraph::push: startIds_ construction is not in the modelled form')
     if errs:
         raise E.ExtractError('; '.join(errs))
     out = ['/- GENERATED by tools/extract_c08.py from the library source — do not edit. -/', 'namespace AITB.Gen.C08', '']
